@@ -909,11 +909,14 @@ def case_setters(spec, rec):
 
 
 SUBS = {'fill': case_fill, 'setters': case_setters}
+FUZZ = {'fill': (config(), case_fill), 'setters': (setter_spec(), case_setters)}
 
 
 def run(ctx):
     ctx.regression(SUBS)
     ctx.explore('fill', config(), case_fill, ctx.n(1200, 8000))
     ctx.explore('setters', setter_spec(), case_setters, ctx.n(400, 2500))
+    ctx.fuzz('fill', ctx.n(250, 5000))
+    ctx.fuzz('setters', ctx.n(120, 2000))
     ctx.notes['max_error_over_tolerance'] = {
         k: float(f'{v:.3g}') for k, v in sorted(MARGIN.items())}
